@@ -510,8 +510,18 @@ class CryptographyEngine(api.CryptographicEngine):
             )
 
         # Encrypt the plain text
-        cipher = ciphers.Cipher(algorithm, mode, backend=default_backend())
-        encryptor = cipher.encryptor()
+        try:
+            cipher = ciphers.Cipher(
+                algorithm,
+                mode,
+                backend=default_backend()
+            )
+            encryptor = cipher.encryptor()
+        except Exception as e:
+            raise exceptions.InvalidField(
+                "The cipher cannot be used with the specified mode and "
+                "IV/nonce: {0}".format(e)
+            )
         if auth_additional_data is not None:
             encryptor.authenticate_additional_data(auth_additional_data)
         cipher_text = encryptor.update(plain_text) + encryptor.finalize()
@@ -849,8 +859,18 @@ class CryptographyEngine(api.CryptographicEngine):
                 mode = mode()
 
         # Decrypt the plain text
-        cipher = ciphers.Cipher(algorithm, mode, backend=default_backend())
-        decryptor = cipher.decryptor()
+        try:
+            cipher = ciphers.Cipher(
+                algorithm,
+                mode,
+                backend=default_backend()
+            )
+            decryptor = cipher.decryptor()
+        except Exception as e:
+            raise exceptions.InvalidField(
+                "The cipher cannot be used with the specified mode and "
+                "IV/nonce: {0}".format(e)
+            )
         if auth_additional_data is not None:
             decryptor.authenticate_additional_data(auth_additional_data)
         plain_text = decryptor.update(cipher_text) + decryptor.finalize()
